@@ -237,10 +237,10 @@ def run(pid, tier, seed, a, t0):
         tiers = ledger.setdefault("tiers", {})
         for i in items:
             if i.label == "proved" and i.status == "ok" and i.obligation is not None:
-                mt = re.search(r"\[tier(\d)", i.detail or "")
+                mt = re.search(r"\[tier(\d)(/default)?", i.detail or "")
                 nid = i.iid
                 if mt and int(mt.group(1)) > 0:
-                    tiers[nid] = int(mt.group(1))
+                    tiers[nid] = "2d" if (mt.group(2) and mt.group(1) == "2") else int(mt.group(1))
                 elif mt and nid in tiers:
                     del tiers[nid]
         json.dump(ledger, open(LEDGER, "w"), indent=0, sort_keys=True)
